@@ -285,6 +285,51 @@ pub fn raw_cases() -> Vec<(String, &'static str)> {
     v
 }
 
+/// Immediate / address operands written through a symbol, a sum or parentheses must be judged
+/// exactly like the literal value (both ends of the legal range and one beyond each).
+pub fn indirect_cases() -> Vec<(String, Verdict, String)> {
+    let mut out = vec![];
+    for m in isa::all_mnemonics() {
+        let base = baseline(&m);
+        for pos in 0..base.len() {
+            if let Opd::K(_) = base[pos] {
+                let w = k_window(&m, pos, 1);
+                let legal: Vec<i64> = w
+                    .iter()
+                    .copied()
+                    .filter(|k| {
+                        let mut ops = base.clone();
+                        ops[pos] = Opd::K(*k);
+                        matches!(isa::assemble(&m, &ops, Core::Full, 0), Verdict::Legal(_))
+                    })
+                    .collect();
+                if legal.is_empty() {
+                    continue;
+                }
+                let (lo, hi) = (*legal.iter().min().unwrap(), *legal.iter().max().unwrap());
+                for v in [lo - 1, lo, hi, hi + 1, lo - 256, hi + 256, hi + 65536] {
+                    let mut ops = base.clone();
+                    ops[pos] = Opd::K(v);
+                    let verdict = isa::assemble(&m, &ops, Core::Full, 0);
+                    let lit = |x: i64| if x < 0 { format!("(0-{})", -x) } else { format!("{}", x) };
+                    for (form, text, prelude) in [
+                        ("symbol", "kq_sym".to_string(), format!(".equ kq_sym = {}\n", lit(v))),
+                        ("symbol-defined-later", "KQ_late".to_string(), String::new()),
+                        ("sum", format!("{}+1", lit(v - 1)), String::new()),
+                        ("parentheses", format!("(({}))", lit(v)), String::new()),
+                        ("set-variable", "kq_set".to_string(), format!(".set kq_set = 0\n.set kq_set = {}\n", lit(v))),
+                    ] {
+                        let texts: Vec<String> = ops.iter().enumerate().map(|(i, o)| if i == pos { text.clone() } else { o.to_string() }).collect();
+                        let tail = if form == "symbol-defined-later" { format!("\n.equ kq_late = {}", lit(v)) } else { String::new() };
+                        out.push((format!("{}{} {}{}", prelude, m, texts.join(", "), tail), verdict.clone(), format!("{}:{}", m, form)));
+                    }
+                }
+            }
+        }
+    }
+    out
+}
+
 /// Registers written through a `.def` alias must be judged exactly like the literal register.
 pub fn alias_cases() -> Vec<(String, Verdict, String)> {
     let mut out = vec![];
@@ -369,7 +414,7 @@ pub fn run(ctx: &Ctx) -> Result<Ev, String> {
     for p in parts {
         total.merge(p);
     }
-    for (src, verdict, m) in alias_cases() {
+    for (src, verdict, m) in alias_cases().into_iter().chain(indirect_cases()) {
         total.eval();
         let (chk, class) = match &verdict {
             Verdict::Legal(w) => (Check::image_code(src.clone(), to_bytes(w)), "legal"),
